@@ -60,6 +60,14 @@ def reserved_target(rng):
     lines += ["structure T = t : 7.", "structure S = s : %d." % (5 if kind == "ref" else 7 if kind == "def" else 6)]
     return {"files": {"proj.comp": "\n".join(lines) + "\n"}, "entries": None, "includes": [], "base": "proj", "args": [], "_gen": None, "_top": None}
 
+def dashed_target(rng):
+    """instance names with a dash (the .sys grammar refuses them): `a` owning a sequence `b-c` next to `a-b` owning `c` would
+    both emit `a-b-c`; whatever is accepted must have unique object names"""
+    files = {"P.comp": 'declare component P: x -> x\nsequence x = "4N"\nsequence b-c = "3N"\nstrand s = x b-c\nstructure T = s : 7.\n',
+             "Q.comp": 'declare component Q: x -> x\nsequence x = "4N"\nsequence c = "3N"\nstrand s = x c\nstructure T = s : 7.\n',
+             "proj.sys": "declare system proj: ->\nimport P, Q\ncomponent a = P: w0 -> w0\ncomponent a-b = Q: w1 -> w1\n"}
+    return {"files": files, "entries": None, "includes": [], "base": "proj", "args": [], "_gen": None, "_top": None}
+
 def gen_target(rng, want_race):
     for _ in range(200):
         t = c02.gen_case(rng)
@@ -91,7 +99,7 @@ def run(tier, seed, build):
         model_reqs = []; model_where = []
         records = []
         for ti in range(ntargets):
-            target = reserved_target(rng) if ti % 4 == 1 else gen_target(rng, want_race=(ti % 3 == 0))     # every third target: an import provided by two include directories; every fourth: a reserved name
+            target = dashed_target(rng) if ti == 5 else reserved_target(rng) if ti % 4 == 1 else gen_target(rng, want_race=(ti % 3 == 0))     # every third target: an import provided by two include directories; every fourth: a reserved name
             dist["reserved_name"] = dist.get("reserved_name", 0) + (1 if target["_gen"] is None else 0)
             dist["include_race"] = dist.get("include_race", 0) + (1 if include_race(target) else 0)
             others = [c02.gen_case(rng) for _ in range(3)]
@@ -104,6 +112,8 @@ def run(tier, seed, build):
             # different (one more, unused, sequence); compiled first in the same interpreter, from its own directory
             twroot = os.path.join(wd, "t%d" % ti, "pTwin", "pT")
             write_project(twroot, {n: (t + ('\nsequence zzztwin = "3N"\n' if n.endswith(".comp") else "")) for n, t in target["files"].items()})
+            for n in target["files"]:       # as after `cp -p` / unpacking an archive: same relative names, same timestamps, other contents
+                st_ = os.stat(os.path.join(troot, n)); os.utime(os.path.join(twroot, n), ns=(st_.st_atime_ns, st_.st_mtime_ns))
             fixed = None
             if target["_gen"] is not None and rng.random() < 0.5:
                 try:
